@@ -22,7 +22,7 @@ from ..kernel import (Violation, call, close, identical, is_exc, short,
 PROP = 'C19'
 MUTATORS = {'mutate_user', 'eval', 'par_eval', 'fix_ll'}
 OBSERVERS = {'eval', 'par_eval'}
-BUDGET = {'quick': {'runs': 1200, 'wall': 75},
+BUDGET = {'quick': {'runs': 1800, 'wall': 75},
           'thorough': {'runs': 60000, 'wall': 1500}}
 RULE = ('seeded generation of interleaved evaluation histories on 2-6 objects '
         'derived from shared user models (value / pointwise / sensitivities / '
